@@ -478,11 +478,11 @@ theorem C01_lock_discipline : disciplineOk Gen.lockTable Gen.lockAssumed = true 
 open Storrent.LockTable in
 /-- what `C01_lock_discipline` says about the buffers, spelled out: in the current source,
     every access to `data` in ReadAt / AddData / Finalise sits in a lock hold in which the
-    piece's state was tested under that same lock. -/
+    piece's state was read under that same lock. -/
 theorem C01_lock_discipline_data (r : Row) (hr : r ∈ Gen.lockTable)
     (hfn : r.fn = "Pieces.ReadAt" ∨ r.fn = "Pieces.AddData" ∨ r.fn = "Pieces.Finalise")
     (hf : r.field = "data") (hv : r.via = .plain) :
-    ∃ c, c ∈ Gen.lockTable ∧ c.fn = r.fn ∧ c.via = .call ∧ c.field ∈ stateTests ∧
+    ∃ c, c ∈ Gen.lockTable ∧ c.fn = r.fn ∧ c.via = .plain ∧ c.field = "state" ∧ c.rw = .r ∧
       c.hold = r.hold ∧ (c.lock = .wlock ∨ c.lock = .rlock) := by
   have h := C01_lock_discipline
   unfold disciplineOk at h
@@ -493,10 +493,9 @@ theorem C01_lock_discipline_data (r : Row) (hr : r ∈ Gen.lockTable)
   have hg : gatedFns.contains r.fn = true := by
     rcases hfn with e | e | e <;> rw [e] <;> decide
   simp only [hg, hv, hf, beq_self_eq_true, Bool.true_and, Bool.true_or, Bool.not_true,
-    Bool.false_or, List.any_eq_true, Bool.and_eq_true, Bool.or_eq_true, beq_iff_eq,
-    List.contains_iff_mem] at hrow
-  obtain ⟨c, hc, ⟨⟨⟨⟨h1, h2⟩, h3⟩, h4⟩, h5⟩⟩ := hrow
-  exact ⟨c, hc, h1, h2, h3, h4, h5⟩
+    Bool.false_or, List.any_eq_true, Bool.and_eq_true, locked, Bool.or_eq_true, beq_iff_eq] at hrow
+  obtain ⟨c, hc, ⟨⟨⟨⟨⟨h1, h2⟩, h3⟩, h4⟩, h5⟩, h7⟩⟩ := hrow
+  exact ⟨c, hc, h1, h2, h3, h4, h5, h7⟩
 
 /-- with the allocation outcome as an input: a deleted store still accepts nothing -/
 theorem addDataA_deleted (s : State) (hdel : s.deleted = true) (i b : Nat) (inp : Bytes)
